@@ -157,10 +157,21 @@ def outcome(cls, G, kw, idem, viol, obs, tag):
         g2 = M.safe_call(m.get_solution); o2 = M.safe_call(m.get_objective_value)
         if M.struct(g1[1:]) != M.struct(g2[1:]) or o1 != o2:
             viol.append({"sig": f"C18/getters-not-repeatable/{cls}", "msg": f"get_solution()/get_objective_value() differ between two calls; {tag}"})
-        s2 = M.safe_call(m.solve)
+        import time as _t
+        t0_ = _t.perf_counter(); s2 = M.safe_call(m.solve); dt_ = _t.perf_counter() - t0_
         g3 = M.safe_call(m.get_solution); o3 = M.safe_call(m.get_objective_value)
         so3 = M.safe_call(m.is_solved)
-        if s2 != s or so3[1:] != (True,):
+        st2 = None
+        try:
+            st2 = m.solver.get_model_status() if getattr(m, "solver", None) is not None else None
+        except BaseException:
+            pass
+        lim = (kw.get("solver_options") or {}).get("time_limit")
+        if so3[1:] != (True,) and (st2 == "kTimeLimit" or (lim and dt_ >= 0.9 * lim)):
+            # heavy-tailed MILP: the repeated solve() ran into the solver's time limit (the first one stayed just below it): 'not solved' is the
+            # correct report for that run; no verdict on repeatability from this model
+            obs["c18.second_solve_time_limited"] += 1
+        elif s2 != s or so3[1:] != (True,):
             viol.append({"sig": f"C18/second-solve-differs/{cls}", "msg": f"solve() {s} then {s2}, is_solved {so3}; {tag}"})
         elif o3 != o1 or (cls != "MinErrorFlow" and g3[0] == "ok" and g1[0] == "ok" and g3[1] and g1[1] and len(models.routes_of(g3[1])) != len(models.routes_of(g1[1]))):
             viol.append({"sig": f"C18/second-solve-changes-result/{cls}", "msg": f"objective {o1} -> {o3}; {tag}"})
